@@ -23,3 +23,33 @@ def f9_mincount0_absent(case, detail):
 PREDICATES = {
     "F9": f9_mincount0_absent,
 }
+
+
+# ---- C10 (grouped scans) -------------------------------------------------------------------------
+
+
+def _c10_inf(case):
+    return any(isinstance(v, float) and math.isinf(v) for v in case["vals"])
+
+
+def c10_f2_inf_kernel(case, detail):
+    # nancumsum with +-inf in the data: numpy_groupies' cumsum-minus-group-start trick yields NaN and poisons later groups
+    return case["func"] == "nancumsum" and _c10_inf(case) and detail.startswith("value at position")
+
+
+def c10_f3_inf_state(case, detail):
+    # nancumsum with +-inf on chunked input: the carried state drops NaN (nanlast), result depends on the chunking
+    return case["func"] == "nancumsum" and _c10_inf(case) and case.get("chunks") is not None and detail.startswith("chunked != eager")
+
+
+def c10_f5_nat_not_filled(case, detail):
+    # ffill / bfill on datetime64 / timedelta64 data: returned unchanged ("no NaNs"), NaT is not filled
+    return (case["func"] in ("ffill", "bfill") and case["dtype"] in ("datetime64[ns]", "timedelta64[ns]")
+            and any(_isnan(v) for v in case["vals"]) and detail.startswith("value at position") and ": nan but" in detail)
+
+
+PREDICATES.update({
+    "C10-F2": c10_f2_inf_kernel,
+    "C10-F3": c10_f3_inf_state,
+    "C10-F5": c10_f5_nat_not_filled,
+})
